@@ -164,3 +164,8 @@ package internal
 //@   ensures [C20] success-writes-each-result-from-its-provider-cell: implies(waitNil, result == nil && nResultStores == nResultTargets && resultStoresFromCellOfPointeeType && !resultStoreBeforeWait)
 //@   ensures [C20] failure-leaves-results-untouched-and-returns-waits-error: implies(!waitNil, result == waitErr && nResultStores == 0)
 //@   ensures [C20] no-escaping-panic: !panics
+
+// The helpers modifier mode substitutes for the option calls of a directive.
+//@ func role:modflow-arg
+//@   ensures [C20] no-escaping-panic: !panics
+//@   ensures [C20] returns-a-closure-over-its-unchanged-arguments: closureReturnsArgs
